@@ -208,7 +208,12 @@ def normalize(W, copy=True):
     W : np.ndarray
         normalized connectivity matrix
     '''
-    if copy:
+    if not np.issubdtype(W.dtype, np.inexact):
+        # integer / bool arrays cannot hold the quotients
+        if not copy:
+            raise BCTParamError('normalize(copy=False) needs a floating-point array')
+        W = W.astype(float)
+    elif copy:
         W = W.copy()
     W /= np.max(np.abs(W))
     return W
